@@ -138,7 +138,8 @@ contract(
         ("rowcount", "len(result) == len(cnarr.data)"),
         ("missing_log2", "forall(0, len(result), lambda k: implies(isnull(cnarr.data.log2[k]), "
                          "result[k] == Rpure(cnarr.data.chromosome[k], ploidy, is_haploid_x_reference)))"),
-        ("nonneg_int", "forall(0, len(result), lambda k: result[k] >= 0 and result[k] == floor(result[k]))"),
+        ("nonneg_int", "forall(0, len(result), lambda k: not isnull(result[k]) and val(result[k]) >= 0 and "
+                       "val(result[k]) == floor(val(result[k])))"),
         ("T", "forall(0, len(result), lambda k: forall(0, len(thresholds) + 1, lambda c: "
               "implies(not isnull(cnarr.data.log2[k]) and is_cut(thresholds, c, val(cnarr.data.log2[k])), "
               "result[k] == T_at(c, len(thresholds), val(cnarr.data.log2[k]), "
